@@ -96,7 +96,7 @@ add("C10", "exploration",
     "cookie value carries its session tag so a cross-session leak is visible independently of the model; attributes and expiry of the "
     "issued session cookie are checked. A concurrent part runs 8-32 goroutines over shared/different sessions under -race.",
     "The cookiejar differential is asserted while no more distinct session ids than the configured limit were used (eviction is allowed beyond); "
-    "client cookie values are simple tokens: other values are known finding F10d (one fixed probe, reported as KNOWN-FINDING). Interleavings are sampled, the race detector amplifies.",
+    "client cookie values are simple tokens in the generated histories; values outside Go's strict cookie grammar are covered by one fixed scenario (the repaired defect F10d). Interleavings are sampled, the race detector amplifies.",
     "stateful property-based testing (rapid): generated request/Set-Cookie histories, differential against net/http/cookiejar + tag isolation; concurrent stress under the race detector", "3/C10")
 add("C11", "exploration",
     "Delivery: generated operation sequences (data posts of 1-30 messages, backend bursts of 1-40 messages beyond the 10-slot buffers, polls, "
